@@ -70,6 +70,7 @@ def r09_1_2(prog: Program, rep: Report):
     skipset = None
     cyc_ok = True
     fwd_ok = True
+    cut_ok = True
     for p in iter_paths:
         adds = [e[1] for e in p.events if e[0] == "eval" and e[1][0] == "call" and e[1][1][0] == "attr" and e[1][1][2] == "add" and T.is_call_to(e[1][1][1], "graphlib.TopologicalSorter")]
         # the add for the popped parent
@@ -110,6 +111,13 @@ def r09_1_2(prog: Program, rep: Report):
         from_ref = T.is_call_to(na.get("type", ("const", None)), "typelib.py.refs.forwardref")
         cyclic = na.get("cyclic") == ("const", True)
         revisit = any(pol and T.contains(g, lambda s: s[0] == "cmp" and s[1] == "in" and s[3][0] == "set" and (s[2] == child or T.is_call_to(s[2], f"{C.INSP}.unwrap"))) for g, pol in p.guards())
+        # a node the walk does not descend into (not pushed on the worklist) is a cut and must say so; one it does descend into must not
+        worklist = add[2][0][1][1]  # what the parent was popped from
+        pushed = any(e[0] == "eval" and e[1][0] == "call" and e[1][1][0] == "attr" and e[1][1][2] in ("append", "appendleft", "extend") and e[1][1][1] == worklist and nodes[0] in e[1][2] for e in p.events)
+        if not pushed and not cyclic:
+            cut_ok = False
+        if pushed and cyclic:
+            cut_ok = False
         if from_ref and not cyclic:
             fwd_ok = False
         if cyclic and not revisit:
@@ -129,7 +137,13 @@ def r09_1_2(prog: Program, rep: Report):
         if cut and child is not None:
             if not any(pol and T.contains(g, lambda s: s[0] == "cmp" and s[1] == "in" and s[2] == child and s[3][0] == "set") for g, pol in p.guards()):
                 asks_label = False
+    # ... and a member is a revisit when the annotation *or* its unwrapped form was seen: requiring both misses a cycle closed
+    # through a label (NewType / alias of a class under construction) and a label met again after its class
+    in_set = lambda s: s[0] == "cmp" and s[1] == "in" and s[3][0] == "set"  # noqa: E731
+    both = any(g[0] == "boolop" and g[1] == "and" and sum(1 for x in g[2] if in_set(x)) >= 2 for p in iter_paths for g, _pol in p.guards())
+    rep.check(not both, "R09.2", q, f.loc, "seen is `annotation in visited or unwrapped in visited`", "a member counts as seen only when the annotation *and* its unwrapped form are both recorded: a cycle closed through a NewType / alias label (recorded under the label, asked for under the class, or the other way round) is never recognised -- CycleError or a walk that does not end", detail="revisit-either")
     rep.check(asks_label, "R09.2", q, f.loc, "the revisit test looks the member annotation itself up in `visited` (that is what gets recorded)", "the revisit test only looks the *unwrapped* annotation up, while `visited` records the annotation itself: a cycle closed through an alias or NewType label is never recognised (CycleError / non-termination)", detail="revisit-asks-label")
+    rep.check(cut_ok, "R09.2", q, f.loc, "a member node is flagged cyclic exactly when the walk does not descend into it", "a member the walk does not descend into (a revisit) is emitted without the cyclic flag, or one it does descend into carries it: the un-flagged stand-in equals the real node of that annotation, the sorter sees a dependency of the node on itself (CycleError) and the routine factories take the stand-in for the real routine", detail="cut-is-flagged")
     rep.check(fwd_ok, "R09.2", q, f.loc, "every forward-reference node is flagged cyclic", "a node built from refs.forwardref is not flagged cyclic=True (the flag is invisible to == and to the exact-list tests)", detail="fwd-implies-cyclic")
     rep.check(cyc_ok, "R09.2", q, f.loc, "cyclic=True occurs only under the revisit test", "a node is flagged cyclic on a path that did not establish a revisit", detail="cyclic-implies-revisit")
     return skipset
@@ -452,7 +466,7 @@ def r09_10(prog: Program, rep: Report, rule="R09.10"):
             if r[0] == "sub" and r[1] == ctxp:
                 reuse_seen = True
                 is_proxy = lambda g: proxy is not None and T.is_call_to(g, "builtins.isinstance") and T.refname(g[2][1]) == proxy.qualname  # noqa: E731
-                ok = any((g == cyc and pol) or (is_proxy(g) and not pol) for g, pol in gs) or any(pol and g[0] == "boolop" and g[1] == "or" and any(x == cyc or (x[0] == "not" and is_proxy(x[1])) for x in g[2]) for g, pol in gs)
+                ok = any((g == cyc and pol) or (is_proxy(g) and not pol) for g, pol in gs) or any(pol and g[0] == "boolop" and g[1] == "or" and all(x == cyc or (x[0] == "not" and is_proxy(x[1])) for x in g[2]) for g, pol in gs)
                 if not ok:
                     reuse_ok = False
         rep.check(lazy, rule, disp.qualname, disp.loc, f"{d}: a cyclic-flagged node that is not built yet gets the lazy proxy", f"{d}: a node flagged cyclic is dispatched like any other: the routine of a revisited generic is built at once from a context that does not hold its members yet (KeyError), or the stand-in is never created", detail=f"{d}-deferred-lazy")
